@@ -3,8 +3,12 @@
 //!
 //! Payload: operations separated by `|`; operation number `i` (0-based) has operation id `i`:
 //! `author group depref kind target level [member:level ...]`
-//!   depref  `-1` = the replica's current heads, `k >= 0` = the heads as they were after the
-//!           k-th operation of the case had been processed (creates concurrency)
+//!   depref  `-1` = the replica's current heads, `0 <= k < 1000` = the heads as they were after the
+//!           k-th operation of the case had been processed (creates concurrency),
+//!           `1000 + m` (m < 2^20) = the subset of the sorted current heads selected by the bits
+//!           of `m` (bit j = j-th head; all heads if that selects nothing),
+//!           `2^32 + m` = exactly the operation ids `j < i` with bit j of `m` set (any set of
+//!           earlier operations, also antichains that are not heads)
 //!   kind    0 create (initial members follow), 1 add, 2 remove, 3 promote, 4 demote,
 //!           5 = submit operation number `target` again (same id, same content)
 //!   level   0..3 = Pull, Read, Write, Manage
@@ -104,10 +108,27 @@ pub fn run() {
             let kind: u64 = v[3].parse().unwrap();
             let target: u64 = v[4].parse().unwrap();
             let level: u64 = v[5].parse().unwrap();
+            const EXPLICIT: i64 = 1 << 32;
             let mut deps: Vec<u32> = if depref < 0 {
                 y.heads()
-            } else {
+            } else if depref < 1000 {
                 snapshots[depref as usize].clone()
+            } else if depref < EXPLICIT {
+                let mask = (depref - 1000) as u64;
+                let mut heads = y.heads();
+                heads.sort();
+                let selected: Vec<u32> = heads
+                    .iter()
+                    .enumerate()
+                    .filter(|(j, _)| *j < 64 && (mask >> j) & 1 == 1)
+                    .map(|(_, h)| *h)
+                    .collect();
+                if selected.is_empty() { heads } else { selected }
+            } else {
+                let mask = (depref - EXPLICIT) as u64;
+                (0..(i.min(64) as u32))
+                    .filter(|j| (mask >> j) & 1 == 1)
+                    .collect()
             };
             deps.sort();
             let t = GroupMember::Individual(member(target));
